@@ -163,7 +163,7 @@ def run_model(requests, timeout):
 
 # requests whose model-side answer is the SPECIFICATION the property names (C05: "the state the same operation
 # produces on a plain ordered-tree model"), not the model of the code
-SPEC_REQUESTS = ("forest specp ",)
+SPEC_REQUESTS = ("forest specp ", "forest spec ")
 
 
 def run_suite(suite, seed, count, tier, timeout=1500):
@@ -220,8 +220,8 @@ def run_suite(suite, seed, count, tier, timeout=1500):
                         j -= 1
                     hist = [r[len("forest "):] for r in reqs[j:i] if r.startswith("forest ") and not r.startswith(SPEC_REQUESTS)]
                     res["spec_failures"].append({"signature": "implementation-differs-from-the-ordered-tree-specification:" + rq.split(" ")[2],
-                                                 "what": f"after `{rq[len('forest specp '):]}` the implementation holds `{a[:300]}`, the specification prescribes `{b[:300]}`",
-                                                 "replay": {"history": hist + [rq[len("forest specp "):]]}})
+                                                 "what": f"after `{rq.split(' ', 2)[2]}` the implementation holds `{a[:300]}`, the specification prescribes `{b[:300]}`",
+                                                 "replay": {"history": hist + [rq.split(' ', 2)[2]]}})
                 if len(res["disagreements"]) < 25:
                     res["disagreements"].append({"request": rq, "implementation": a, "model": b})
                 res.setdefault("disagreeing_requests", []).append(rq)
